@@ -9,11 +9,11 @@ from ..common import MachineryError, NCPU
 from ..harness import cdriver, clientcheck
 
 INVS = ['TypeOK', 'C08_OneDisconnectPerConnect', 'C08_ConnectedHasOpenCycle', 'C08_CleanAfter',
-        'C08_ConnectedConsistent', 'C08_TasksEnd', 'C08_NoTaskStuck', 'C09_RxOnceInOrder',
-        'C09_TxOnceInOrder', 'C09_WsOnlyAfterProbe']
+        'C08_ConnectedConsistent', 'C08_TasksEnd', 'C08_NoTaskStuck', 'C08_NothingReceivedAfterEnd',
+        'C08_NothingLeftQueuedRaw', 'C09_RxOnceInOrder', 'C09_TxOnceInOrder', 'C09_WsOnlyAfterProbe']
 TRACE_INVS = ['TypeOK', 'C08_OneDisconnectPerConnect', 'C08_ConnectedHasOpenCycle',
               'C08_CleanAfter', 'C08_ConnectedConsistent', 'C08_TasksEnd', 'C08_NoTaskStuck',
-              'C09_RxOnceInOrder']
+              'C08_NothingReceivedAfterEnd', 'C09_RxOnceInOrder']
 
 BASE = dict(RT=3, Grace=2, ImplWsProbeTimeout='TRUE', ImplWsSetTimeout='TRUE', ConnectDisconnects='FALSE',
             MsgDisconnects='FALSE', Deviations='{}',
